@@ -261,7 +261,7 @@ type Endpoint struct {
 	running atomic.Bool
 
 	// PostHandler is called after every handler invocation on this endpoint (sampling hook).
-	PostHandler func()
+	PostHandler func(msgID uint64)
 }
 
 func (n *Net) NewEndpoint(id string, inc int) *Endpoint {
@@ -452,7 +452,7 @@ func (e *Endpoint) deliver(dst *Endpoint, msg *mon.Msg, call func(dst *Endpoint,
 	}
 	n.M.Emit(mon.Event{Kind: mon.KReply, Node: dst.ID, Inc: dst.Inc, Msg: &mon.Msg{ID: msg.ID, Kind: msg.Kind, From: msg.From, To: msg.To, Term: msg.Term, RTerm: msg.RTerm, ROK: msg.ROK, RIndex: msg.RIndex, RWritten: msg.RWritten, RErr: msg.RErr}})
 	if dst.PostHandler != nil {
-		dst.PostHandler()
+		dst.PostHandler(msg.ID)
 	}
 	if err != nil {
 		return err
